@@ -15,8 +15,22 @@
 (*    opt \in {"none", "split", "reduce"}                                          *)
 (* Failing(n, q, o) is the set of clauses of the statement that o contradicts.     *)
 (*                                                                                *)
-(* A handle is a state machine [n, open, nreads]; HRead never looks at anything    *)
-(* but n: a read returns Index(table, selection) regardless of history.            *)
+(* A handle is a state machine [n, nc, open, nreads]; HRead never looks at anything *)
+(* but n and nc: a read returns Index(table, selection) regardless of history - of   *)
+(* any length, and whether or not earlier calls were rejected (a rejected call is a  *)
+(* stutter step on everything a later read can see).  Tables of other widths than    *)
+(* NCols (long histories need dozens of distinct column selections) are described    *)
+(* by nc; the operators without the suffix N / T are the nc = NCols instances.       *)
+(*                                                                                *)
+(* Scale.  A table too long to be written out row by row is handled in RUN-LENGTH    *)
+(* form: a run <<a, st, c>> denotes the c rows a, a+st, .., a+(c-1)st.  A row request *)
+(* of kind "runs" carries its row list as runs (rs = sequence of runs), an           *)
+(* observation may carry `runs` instead of `rows`; ExpRuns is the closed form of      *)
+(* ExpRows and RunsSame decides equality of denotations in O(number of runs).        *)
+(* The law that makes the long case decidable from the short ones: a selection from   *)
+(* a table that is a concatenation of blocks is the concatenation of the selections   *)
+(* from the blocks, shifted (SliceConcat / ListConcat / SliceBlock below; checked by   *)
+(* TLC on the small scope in SelectMC: ConcatLaw, RunsLaw, RunsSameSound, ScaleLaw).   *)
 (*                                                                                *)
 (* Mechanism level (SliceNorm, RowsNorm, PostProcess, cursor): the code's own      *)
 (* normalisation steps transcribed from recfile/Util.py and records.cpp, with the  *)
@@ -32,6 +46,7 @@ RAll           == [k |-> "all",    r |-> 0, rs |-> <<>>, s |-> None, e |-> None,
 RScalar(r)     == [k |-> "scalar", r |-> r, rs |-> <<>>, s |-> None, e |-> None, st |-> None]
 RList(rs)      == [k |-> "list",   r |-> 0, rs |-> rs,   s |-> None, e |-> None, st |-> None]
 RSlice(s,e,st) == [k |-> "slice",  r |-> 0, rs |-> <<>>, s |-> s,    e |-> e,    st |-> st]
+RRuns(rr)      == [k |-> "runs",   r |-> 0, rs |-> rr,   s |-> None, e |-> None, st |-> None]   \* a row list given as runs
 
 CAll      == [k |-> "all",  cs |-> <<>>]
 CName(c)  == [k |-> "name", cs |-> <<c>>]
@@ -45,6 +60,37 @@ PyBound(n, x, dflt) == IF x = None THEN dflt
                        ELSE IF x < 0 THEN VClamp(x + n, 0, n) ELSE VClamp(x, 0, n)
 PySlice(n, s, e, st) == VArange(PyBound(n, s, 0), PyBound(n, e, n), PyStep(st))
 
+\* ---- run-length form ----------------------------------------------------------------
+\* a run r = <<a, st, c>>, c >= 1, denotes a, a+st, .., a+(c-1)st (st is irrelevant when c = 1)
+RunLast(r)   == r[1] + (r[3] - 1) * r[2]
+RunExpand(r) == [i \in 1..r[3] |-> r[1] + (i - 1) * r[2]]
+RECURSIVE RunsExpand(_)
+RunsExpand(R) == IF Len(R) = 0 THEN <<>> ELSE RunExpand(R[1]) \o RunsExpand(Tail(R))
+RunsWF(R)     == \A i \in DOMAIN R : Len(R[i]) = 3 /\ R[i][3] >= 1
+\* drop the first m elements of the first run (1 <= m <= its count)
+RunsDrop(R, m) == IF R[1][3] = m THEN Tail(R)
+                  ELSE <<<<R[1][1] + m * R[1][2], R[1][2], R[1][3] - m>>>> \o Tail(R)
+\* two well-formed run lists denote the same sequence (decided without expanding them)
+RECURSIVE RunsSame(_, _)
+RunsSame(A, B) ==
+    IF Len(A) = 0 \/ Len(B) = 0 THEN Len(A) = 0 /\ Len(B) = 0
+    ELSE LET a == A[1]  b == B[1] IN
+         /\ a[1] = b[1]
+         /\ IF a[3] = 1 \/ b[3] = 1 THEN RunsSame(RunsDrop(A, 1), RunsDrop(B, 1))
+            ELSE /\ a[2] = b[2]
+                 /\ LET m == VMin2(a[3], b[3]) IN RunsSame(RunsDrop(A, m), RunsDrop(B, m))
+\* a run of a REQUEST as an ascending run of distinct rows (a descending run reversed, a
+\* repeated row once)
+RunNorm(r) == IF r[3] = 1 \/ r[2] = 0 THEN <<r[1], 1, 1>>
+              ELSE IF r[2] < 0 THEN <<RunLast(r), -r[2], r[3]>> ELSE r
+RunSet(rr) == {RunNorm(rr[i]) : i \in DOMAIN rr}
+\* the class the closed form covers: pairwise separated runs (in any order, each possibly
+\* listed more than once) - their sorted distinct union is the runs sorted by first row
+RunsSeparated(U) == \A x, y \in U : x # y => (RunLast(x) < y[1] \/ RunLast(y) < x[1])
+RECURSIVE RunsSorted(_)
+RunsSorted(U) == IF U = {} THEN <<>>
+                 ELSE LET m == CHOOSE x \in U : \A y \in U : x[1] <= y[1] IN <<m>> \o RunsSorted(U \ {m})
+
 \* ---- rows -----------------------------------------------------------------------
 InRange(n, r) == -n <= r /\ r < n
 Wrap(n, r)    == IF r < 0 THEN r + n ELSE r
@@ -53,9 +99,18 @@ Wrap(n, r)    == IF r < 0 THEN r + n ELSE r
 \* "reject" : out-of-range row list - must be rejected
 \* "either" : statement silent/ambiguous (negative entries inside a list: wrap as numpy
 \*            would, or reject; the empty list: empty table, or reject)
-\* "free"   : outside the quantifier (scalar row outside [-n, n)) - anything goes
+\* "free"   : outside the quantifier (scalar row outside [-n, n)) - anything goes; also a
+\*            run-length row list outside the class the closed form covers (negative
+\*            rows, interleaved runs)
+RunsMode(n, rr) ==
+    IF Len(rr) = 0 THEN "either"
+    ELSE LET U == RunSet(rr) IN
+         IF \E x \in U : RunLast(x) >= n \/ x[1] < -n THEN "reject"
+         ELSE IF (\E x \in U : x[1] < 0) \/ ~RunsSeparated(U) THEN "free"
+         ELSE "det"
 RowMode(n, rq) ==
     CASE rq.k = "all"    -> "det"
+      [] rq.k = "runs"   -> RunsMode(n, rq.rs)
       [] rq.k = "slice"  -> "det"
       [] rq.k = "scalar" -> IF InRange(n, rq.r) THEN "det" ELSE "free"
       [] rq.k = "list"   -> IF \E i \in DOMAIN rq.rs : ~InRange(n, rq.rs[i]) THEN "reject"
@@ -68,20 +123,60 @@ ExpRows(n, rq) ==
       [] rq.k = "slice"  -> PySlice(n, rq.s, rq.e, rq.st)
       [] rq.k = "scalar" -> <<Wrap(n, rq.r)>>
       [] rq.k = "list"   -> VSortSet({Wrap(n, rq.rs[i]) : i \in DOMAIN rq.rs})
+      [] rq.k = "runs"   -> VSortSet({Wrap(n, x) : x \in VRange(RunsExpand(rq.rs))})
+
+\* the same in closed form, as runs (RunsLaw, ScaleLaw: RunsExpand(ExpRuns) = ExpRows)
+SliceCount(a, b, st) == IF b > a THEN (b - a + st - 1) \div st ELSE 0
+ExpRuns(n, rq) ==
+    CASE rq.k = "all"    -> IF n = 0 THEN <<>> ELSE <<<<0, 1, n>>>>
+      [] rq.k = "slice"  -> LET a  == PyBound(n, rq.s, 0)
+                                c  == SliceCount(a, PyBound(n, rq.e, n), PyStep(rq.st))
+                            IN IF c = 0 THEN <<>> ELSE <<<<a, PyStep(rq.st), c>>>>
+      [] rq.k = "scalar" -> <<<<Wrap(n, rq.r), 1, 1>>>>
+      [] rq.k = "list"   -> LET x == VSortSet({Wrap(n, rq.rs[i]) : i \in DOMAIN rq.rs})
+                            IN [i \in DOMAIN x |-> <<x[i], 1, 1>>]
+      [] rq.k = "runs"   -> RunsSorted(RunSet(rq.rs))
+
+\* ---- the concatenation law -------------------------------------------------------------
+\* first row at or above p of the progression a, a+st, a+2st, ..   (the stride PHASE is
+\* carried across the cut: it does not restart at p)
+PhaseFrom(a, st, p) == IF a >= p THEN a ELSE a + ((p - a + st - 1) \div st) * st
+ShiftSeq(x, d)      == [i \in DOMAIN x |-> x[i] + d]
+\* what a slice selects from the block [p, p + len) of the table, as a slice of the table
+SliceBlock(n, rq, p, len) ==
+    LET st == PyStep(rq.st) IN
+    RSlice(PhaseFrom(PyBound(n, rq.s, 0), st, p), VMin2(PyBound(n, rq.e, n), p + len), st)
+\* the blocks of len rows (the last one shorter) a table of n rows consists of
+SliceBlocks(n, rq, len) == [k \in 1..((n + len - 1) \div len) |-> SliceBlock(n, rq, (k - 1) * len, len)]
+\* table = its first p rows followed by the other n - p: the slice of the whole is the slice
+\* of the first part followed by the (shifted) slice of the second part
+SliceConcat(n, rq, p) ==
+    LET a == PyBound(n, rq.s, 0)  b == PyBound(n, rq.e, n)  st == PyStep(rq.st) IN
+    VArange(a, VMin2(b, p), st) \o ShiftSeq(VArange(PhaseFrom(a, st, p) - p, VMax2(b - p, 0), st), p)
+\* ... and a row list (all rows inside the table) selects from the first part the rows
+\* below p and from the second part the others, shifted
+ListConcat(n, rs, p) ==
+    ExpRows(p, RList(SelectSeq(rs, LAMBDA r : r < p)))
+    \o ShiftSeq(ExpRows(n - p, RList(ShiftSeq(SelectSeq(rs, LAMBDA r : r >= p), -p))), p)
 
 \* ---- columns ----------------------------------------------------------------------
 \* a column list yields those columns in file order; a scalar name that column
-ExpCols(cq) == IF cq.k = "all" THEN AllCols ELSE VSortSet(VRange(cq.cs))
+AllColsN(nc)    == [i \in 1..nc |-> i]
+ExpColsN(nc, cq) == IF cq.k = "all" THEN AllColsN(nc) ELSE VSortSet(VRange(cq.cs))
+ExpCols(cq)      == ExpColsN(NCols, cq)
+\* a name that is not a column of the table: the statement is silent ("free")
+ColMode(nc, cq)  == IF cq.k # "all" /\ \E i \in DOMAIN cq.cs : cq.cs[i] \notin 1..nc THEN "free" ELSE "det"
 
 \* a single column name yields a plain array; split gives one plain array per column;
 \* reduce turns a one-column selection into a plain array and leaves any other
 \* selection as it is.  (a scalar name together with split: a plain array or a
 \* 1-tuple - the statement does not say.)
-ExpShapes(cq, opt) ==
+ExpShapesN(nc, cq, opt) ==
     IF cq.k = "name" THEN (IF opt = "split" THEN {"plain", "split"} ELSE {"plain"})
     ELSE IF opt = "split" THEN {"split"}
-    ELSE IF opt = "reduce" /\ Len(ExpCols(cq)) = 1 THEN {"plain"}
+    ELSE IF opt = "reduce" /\ Len(ExpColsN(nc, cq)) = 1 THEN {"plain"}
     ELSE {"struct"}
+ExpShapes(cq, opt) == ExpShapesN(NCols, cq, opt)
 
 \* ---- acceptance --------------------------------------------------------------------
 Rejected  == [err |-> "rejected", shape |-> "none", cols |-> <<>>, rows |-> <<>>]
@@ -89,7 +184,7 @@ Result(shape, cols, rows) == [err |-> "none", shape |-> shape, cols |-> cols, ro
 
 \* the clause of the statement a wrong row set / a wrong result form contradicts
 RowClause(rq) == CASE rq.k = "slice"  -> "slice_rule"        \* a slice follows Python slice semantics
-                   [] rq.k = "list"   -> "row_list"          \* distinct rows in ascending order
+                   [] rq.k \in {"list", "runs"} -> "row_list"  \* distinct rows in ascending order
                    [] rq.k = "scalar" -> "scalar_row"
                    [] OTHER           -> "all_rows"
 ShapeClause(cq, opt) == IF opt = "reduce" THEN "reduce"
@@ -97,17 +192,22 @@ ShapeClause(cq, opt) == IF opt = "reduce" THEN "reduce"
                         ELSE IF opt = "split" THEN "split"
                         ELSE "structured"
 
-Failing(n, q, o) ==
+\* the rows of an observation, written out (rows) or in run-length form (runs)
+RowsOK(n, rq, o) == IF "runs" \in DOMAIN o THEN RunsWF(o.runs) /\ RunsSame(o.runs, ExpRuns(n, rq))
+                    ELSE o.rows = ExpRows(n, rq)
+
+FailingT(n, nc, q, o) ==
     LET m == RowMode(n, q.rq) IN
-    IF m = "free" THEN {}
+    IF m = "free" \/ ColMode(nc, q.cq) = "free" THEN {}
     ELSE IF o.err = "malformed" THEN {ShapeClause(q.cq, q.opt)}        \* not a table of the allowed form
     ELSE IF o.err = "rejected"
          THEN (IF m \in {"reject", "either"} THEN {}
                ELSE IF q.rq.k = "all" THEN {ShapeClause(q.cq, q.opt)} ELSE {RowClause(q.rq)})
     ELSE IF m = "reject" THEN {"out_of_range_not_rejected"}             \* out-of-range row lists are rejected
-    ELSE (IF o.rows  = ExpRows(n, q.rq) THEN {} ELSE {RowClause(q.rq)})
-         \cup (IF o.cols  = ExpCols(q.cq) THEN {} ELSE {"column_order"})   \* those columns in file order
-         \cup (IF o.shape \in ExpShapes(q.cq, q.opt) THEN {} ELSE {ShapeClause(q.cq, q.opt)})
+    ELSE (IF RowsOK(n, q.rq, o) THEN {} ELSE {RowClause(q.rq)})
+         \cup (IF o.cols  = ExpColsN(nc, q.cq) THEN {} ELSE {"column_order"})   \* those columns in file order
+         \cup (IF o.shape \in ExpShapesN(nc, q.cq, q.opt) THEN {} ELSE {ShapeClause(q.cq, q.opt)})
+Failing(n, q, o) == FailingT(n, NCols, q, o)
 
 Accept(n, q, o) == Failing(n, q, o) = {}
 
@@ -116,10 +216,12 @@ Index(n, q) == Result(CHOOSE sh \in ExpShapes(q.cq, q.opt) : sh # "split" \/ q.c
                       ExpCols(q.cq), ExpRows(n, q.rq))
 
 \* ---- the handle as a state machine ---------------------------------------------------
-HOpen(n)    == [n |-> n, open |-> TRUE, nreads |-> 0]
-HRead(h, q) == [h EXCEPT !.nreads = @ + 1]              \* nothing a later read could see
+HOpenT(n, nc) == [n |-> n, nc |-> nc, open |-> TRUE, nreads |-> 0]
+HOpen(n)    == HOpenT(n, NCols)
+HRead(h, q) == [h EXCEPT !.nreads = @ + 1]              \* nothing a later read could see - whether the
+                                                        \* call was served or rejected, after any history
 HClose(h)   == [h EXCEPT !.open = FALSE]
-HFailing(h, q, o) == IF h.open THEN Failing(h.n, q, o) ELSE {"closed"}
+HFailing(h, q, o) == IF h.open THEN FailingT(h.n, h.nc, q, o) ELSE {"closed"}
 
 \* =====================================================================================
 \* Mechanism level.  Results are [err, rows] with err "none" or the exception class.
